@@ -146,6 +146,9 @@ general:
   addr8s:
     operand_values:
       ad8: {{type: address, argument: {{size: 8, byte_align: true, slice_lsb: true, match_address_msb: true}}}}
+  addr12s:
+    operand_values:
+      ad12: {{type: address, argument: {{size: 12, byte_align: false, slice_lsb: true, match_address_msb: true}}}}
   valid16:
     operand_values:
       v16: {{type: numeric, argument: {{size: 16, byte_align: true, valid_address: true}}}}
@@ -181,6 +184,9 @@ instructions:
   jz:
     bytecode: {{value: 96, size: 8}}
     operands: {{count: 1, operand_sets: {{list: [addr8s]}}}}
+  jl12:
+    bytecode: {{value: 13, size: 4}}
+    operands: {{count: 1, operand_sets: {{list: [addr12s]}}}}
   lea:
     bytecode: {{value: 97, size: 8}}
     operands: {{count: 1, operand_sets: {{list: [valid16]}}}}
@@ -237,6 +243,8 @@ def instr_parts(cfg, mn, ops):
         return [opc(64, 8), ip(f'VAddr {expr_term(ops[0])} {gb} false false', 16, True, E)]
     if mn == 'jz':
         return [opc(96, 8), ip(f'VAddr {expr_term(ops[0])} {gb} true true', 8, True, E)]
+    if mn == 'jl12':
+        return [opc(13, 4), ip(f'VAddr {expr_term(ops[0])} {gb} true true', 12, False, E)]
     if mn == 'lea':
         return [opc(97, 8), ip(f'VZone {expr_term(ops[0])} {gb}', 16, True, E)]
     if mn == 'setn':
@@ -250,7 +258,7 @@ def instr_parts(cfg, mn, ops):
     raise ValueError(mn)
 
 
-INSTR_SIZES = {'nop': 1, 'hlt': 1, 'ldi': 2, 'jmp': 3, 'jbe': 3, 'jle': 3, 'jr': 2, 'jre': 2, 'call': 3, 'jz': 2, 'lea': 3,
+INSTR_SIZES = {'jl12': 2, 'nop': 1, 'hlt': 1, 'ldi': 2, 'jmp': 3, 'jbe': 3, 'jle': 3, 'jr': 2, 'jre': 2, 'call': 3, 'jz': 2, 'lea': 3,
                'setn': 1, 'bset': 1, 'lda': 2, 'pick': 2}
 
 
